@@ -609,9 +609,9 @@ def main():
     quick = tier == 'quick'
     specs = []          # (spec, total points, total lines, chunk size in points)
     # shipped geometries: (points, lines, chunk) per tier
-    plan = {1: (200, 40, 50, 5000, 600, 250), 2: (80, 12, 20, 2500, 160, 60), 3: (160, 30, 40, 4500, 500, 200),
-            4: (60, 10, 15, 2000, 120, 50), 5: (200, 40, 50, 5000, 600, 250), 6: (200, 40, 50, 5000, 600, 250),
-            7: (300, 60, 100, 6000, 800, 400)}
+    plan = {1: (200, 40, 50, 3200, 400, 200), 2: (60, 10, 15, 1600, 100, 50), 3: (160, 30, 40, 3000, 320, 150),
+            4: (45, 8, 15, 1300, 80, 40), 5: (200, 40, 50, 3200, 400, 200), 6: (200, 40, 50, 3200, 400, 200),
+            7: (300, 60, 100, 4000, 500, 250)}
     for gi in range(1, 8):
         qp, ql, qc, tp, tl, tc = plan[gi]
         specs.append(({'kind': 'file', 'file': 'g%d.dat' % gi, 'fix': gi == 3, 'seed': rnd.randrange(1 << 30)}, qp if quick else tp, ql if quick else tl, qc if quick else tc))
@@ -629,7 +629,7 @@ def main():
         sp.update(extra)
         big = gi in (2, 4)
         if quick: specs.append((sp, 30 if big else 60, 6 if big else 15, 15 if big else 30))
-        else: specs.append((sp, 600 if big else 1500, 50 if big else 200, 40 if big else 150))
+        else: specs.append((sp, 400 if big else 1000, 30 if big else 130, 40 if big else 125))
     # rectangular, column sizes over three decades
     for j in range(10 if quick else 60):
         nx, ny = rnd.randint(2, 12), rnd.randint(1, 10)
@@ -637,7 +637,7 @@ def main():
               'origin': rnd.choice([[0., 0., 0.], [round(rnd.uniform(-1e4, 1e4), 1), round(rnd.uniform(-1e4, 1e4), 1), round(rnd.uniform(-500, 1500), 1)], [2765984.77, 6261546.23, 880.]]),
               'convention': rnd.randint(0, 3), 'atmos_type': rnd.randint(0, 2), 'surfaces': rnd.random() < 0.7,
               'rotate': rnd.choice([None, None, 45., round(rnd.uniform(-180, 180), 2)]), 'seed': rnd.randrange(1 << 30)}
-        specs.append((sp, 50 if quick else 250, 20 if quick else 100, 50 if quick else 125))
+        specs.append((sp, 50 if quick else 160, 20 if quick else 60, 50 if quick else 80))
     tasks = []
     for sp, npts, nlines, chunk in specs:
         nchunks = max(1, (npts + chunk - 1) // chunk)
@@ -645,7 +645,7 @@ def main():
             p = min(chunk, npts - c * chunk)
             l = nlines // nchunks + (1 if c < nlines % nchunks else 0)
             ncols_guess = {'g2.dat': 1036, 'g4.dat': 1334}.get(sp.get('file'), 300)
-            ndense = (2000 if ncols_guess < 1000 else 1000) if quick else 10000
+            ndense = (1500 if ncols_guess < 1000 else 800) if quick else 10000
             tasks.append((sp, c, p, l, ndense, seed))
     cost = lambda t: -({'g2.dat': 20, 'g4.dat': 30}.get(t[0].get('file'), 1) * (3 if t[0].get('refine') else 1) * (t[2] + 3 * t[3]))
     order = sorted(range(len(tasks)), key=lambda i: (cost(tasks[i]), i))
